@@ -121,6 +121,8 @@ type Broker struct {
 	Auth    *auth.Manager
 	Opts    BrokerOpts
 	Met     *recMetrics
+	topicsDown int32
+	mgrDown    int32
 	authNames []string
 }
 
@@ -228,11 +230,20 @@ func (b *Broker) Close(timeout time.Duration) bool {
 
 // Drop abandons the broker without waiting for Stop (used by harnesses whose property is not about
 // shutdown: Manager.Stop is exercised by C20 only).
+// ShutdownTopics shuts the topics provider down once.
+func (b *Broker) ShutdownTopics() {
+	if atomic.CompareAndSwapInt32(&b.topicsDown, 0, 1) {
+		_ = b.Topics.Shutdown()
+	}
+}
+
 func (b *Broker) Drop() {
 	go func() {
-		_ = b.Mgr.Stop()
-		_ = b.Mgr.Shutdown()
-		_ = b.Topics.Shutdown()
+		if atomic.CompareAndSwapInt32(&b.mgrDown, 0, 1) {
+			_ = b.Mgr.Stop()
+			_ = b.Mgr.Shutdown()
+		}
+		b.ShutdownTopics()
 	}()
 	authRegMu.Lock()
 	for _, n := range b.authNames {
@@ -586,4 +597,13 @@ func topicLenRaw(raw []byte) int {
 		return -1
 	}
 	return int(raw[i])<<8 | int(raw[i+1])
+}
+
+// Drop2 releases the auth registrations of a broker that has already been stopped.
+func (b *Broker) Drop2() {
+	authRegMu.Lock()
+	for _, n := range b.authNames {
+		auth.UnRegister(n)
+	}
+	authRegMu.Unlock()
 }
